@@ -15,7 +15,7 @@ Local Open Scope N_scope.
 Theorem C07_close_post :
   forall (fx : bool) (cap : N) (progs : list (list tw_call)) (s : tw_state),
   tw_wf cap progs -> tw_wf_close progs -> tw_reach fx cap progs s -> In TwAEnd (tw_applied s) ->
-  tw_cpc s = TwCDone /\ tw_final s = true /\ abs (tw_q s) = [] /\ tw_held s = None /\
+  tw_cpc s = TwCDone /\ tw_final s = true /\ mrb_abs (tw_q s) = [] /\ tw_held s = None /\
   tw_msgs_of (tw_applied s) = tw_acc_msgs s /\
   exists l, tw_applied s = l ++ [TwAEnd] /\ ~ In TwAEnd l.
 Proof. exact tw_close_post. Qed.
@@ -41,6 +41,47 @@ Print Assumptions C07_close_hang_refuted.
 Theorem C07_close_hang_repaired : tw_hang_repaired_check = true.
 Proof. exact tw_hang_repaired_check_true. Qed.
 Print Assumptions C07_close_hang_repaired.
+
+(* flush_post, all schedules, both protocol variants: when jls_twr_flush (call idx of thread t) has returned 0
+   (ghost event TwEvFlushed, logged in the step in which the call returns) and its ticket was taken when
+   `mark` messages had been accepted (ghost event TwEvTicket, logged in the step that takes the ticket under
+   msg_mutex), then the first `mark` accepted messages have all been handed to the writer, in order, and a
+   FLUSH message (jls_wr_flush = fsync) was processed after the last of them.  Holds in the state in which
+   the flush returns and ever after.  Premise: fewer than 2^64 tickets taken so far (uint64 ticket counter). *)
+Theorem C07_flush_post :
+  forall (fx : bool) (cap : N) (progs : list (list tw_call)) (s : tw_state) (t : tw_tid) (idx mark : nat),
+  tw_wf cap progs -> tw_wf_close progs -> tw_reach fx cap progs s ->
+  N.of_nat (tw_ntickets s) < 18446744073709551616 ->
+  In (TwEvFlushed t idx mark) (tw_trace s) ->
+  (exists id, In (TwEvTicket t idx id mark) (tw_trace s)) /\
+  firstn mark (tw_acc_msgs s) = firstn mark (tw_processed s) /\
+  exists k m, (mark <= k)%nat /\ nth_error (tw_processed s) k = Some m /\ tw_kind_of m = 1.
+Proof. exact tw_flush_post. Qed.
+Print Assumptions C07_flush_post.
+
+(* satisfiable: the second flush of producer 0 in the example run returned 0 with three messages accepted before its ticket *)
+Example C07_flush_post_hyps :
+  exists s : tw_state,
+  tw_wf 128 tw_ex_prog /\ tw_wf_close tw_ex_prog /\ tw_reach false 128 tw_ex_prog s /\
+  N.of_nat (tw_ntickets s) < 18446744073709551616 /\ In (TwEvFlushed (TwTProd 0) 2 3) (tw_trace s).
+Proof. exact tw_ex_flush. Qed.
+Print Assumptions C07_flush_post_hyps.
+
+(* no_deadlock, repaired close (fx = true), all schedules, any number of producers, any capacity >= 48:
+   in every reachable state either all threads have finished, or some thread sleeps (virtual time will
+   wake it: retry and flush polling loops), or some thread can take a step.  tw_wf_live: producer 0 exists
+   and its last call is jls_twr_close.  (The same statement is false for the protocol as it is in /repo:
+   C07_close_hang_refuted; tw_hang_prog satisfies all three well-formedness conditions.) *)
+Theorem C07_no_deadlock :
+  forall (cap : N) (progs : list (list tw_call)) (s : tw_state),
+  tw_wf cap progs -> tw_wf_close progs -> tw_wf_live progs -> tw_reach true cap progs s ->
+  tw_final s = true \/ tw_some_sleeping s = true \/ exists t, tw_step true s t <> None.
+Proof. exact tw_no_deadlock. Qed.
+Print Assumptions C07_no_deadlock.
+
+Example C07_no_deadlock_hyps : tw_wf_live tw_ex_prog /\ tw_wf_live tw_hang_prog.
+Proof. exact tw_ex_wf_live. Qed.
+Print Assumptions C07_no_deadlock_hyps.
 
 Example C07_example_run :
   forall fx : bool, exists s : tw_state,
